@@ -592,7 +592,7 @@ def classify(tr, line, act, why):
 def validate(ck, d, ex, traces, waived, tag):
     write_models(d, ex, waived, 3)
     return tlc.validate_traces("TR_ClfLock.tla", "TR_ClfLock.cfg", PID + "/" + tag, traces, shards=16,
-                               timeout=600, cwd=d)
+                               timeout=1800, cwd=d)
 
 
 def selftest_traces(tr):
@@ -639,7 +639,7 @@ def _run(ck, d, tier, seed, quick):
     # witnesses on the final (waived) model: the interesting situations are reachable
     need = ["W_InDriverLocked", "W_Waiting", "W_Enodev", "W_Closed", "W_Reopen", "W_TwoOps", "W_CloseFailed"]
     write_models(d, ex, waived_mc, 2)
-    hit, _ = tlc.witnesses("MC_ClfLock.tla", "MC_ClfLock_reach.cfg", PID + "/reach", need, cwd=d, timeout=200)
+    hit, _ = tlc.witnesses("MC_ClfLock.tla", "MC_ClfLock_reach.cfg", PID + "/reach", need, cwd=d, timeout=900)
     if set(need) - hit:
         raise tlc.TLCError("vacuous model: witnesses not reached: %s" % sorted(set(need) - hit))
     ck.cover(witnesses_reached=need)
